@@ -236,7 +236,8 @@ class Quote(BlockToken):
     @classmethod
     def read(cls, lines):
         # first line
-        line = cls.convert_leading_tabs(next(lines).lstrip()).split('>', 1)[1]
+        line = next(lines)
+        line = cls.convert_leading_tabs(line.lstrip(), len(line) - len(line.lstrip())).split('>', 1)[1]
         if len(line) > 0 and line[0] == ' ':
             line = line[1:]
         line_buffer = [line]
@@ -253,7 +254,7 @@ class Quote(BlockToken):
         while (next_line is not None
                 and next_line.strip() != ''
                 and not any(token_type.check_interrupts_paragraph(lines) for token_type in breaking_tokens)):
-            stripped = cls.convert_leading_tabs(next_line.lstrip())
+            stripped = cls.convert_leading_tabs(next_line.lstrip(), len(next_line) - len(next_line.lstrip()))
             prepend = 0
             if stripped[0] == '>':
                 # has leader, not lazy continuation
@@ -283,20 +284,23 @@ class Quote(BlockToken):
         return parse_buffer
 
     @staticmethod
-    def convert_leading_tabs(string):
-        if string.startswith('>\t'):
-            string = '   ' + string[2:]
-        count = 0
-        for i, c in enumerate(string):
-            if c == '\t':
-                count += 4
-            elif c == ' ':
-                count += 1
-            else:
-                break
-        if i == 0:
+    def convert_leading_tabs(string, indentation=0):
+        """
+        Expands the tabs among the whitespace that follows the block quote marker.
+        Tab stops are every four columns, counted from the beginning of the line:
+        `indentation` is the number of columns before the marker.
+        """
+        if not string.startswith('>'):
             return string
-        return '>' + ' ' * count + string[i:]
+        column = indentation + 1
+        whitespace = ''
+        i = 1
+        while i < len(string) and string[i] in ' \t':
+            width = 4 - column % 4 if string[i] == '\t' else 1
+            whitespace += ' ' * width
+            column += width
+            i += 1
+        return '>' + whitespace + string[i:]
 
 
 class Paragraph(BlockToken):
